@@ -22,6 +22,8 @@ DENSE = 50
 SPIN_LIMIT = 300
 IFACES = [{"name": "eth0", "index": 2, "addr": "192.168.1.10", "mask": "255.255.255.0"},
           {"name": "eth0", "index": 2, "addr": "fe80::10", "mask": "ffff:ffff:ffff:ffff::"}]
+IFACES_V6 = [{"name": "eth0", "index": 2, "addr": "fe80::10", "mask": "ffff:ffff:ffff:ffff::"}]
+IFACES_V4 = [{"name": "eth0", "index": 2, "addr": "192.168.1.10", "mask": "255.255.255.0"}]
 TY = "_wd._tcp.local."
 
 
@@ -62,7 +64,10 @@ def gen_history(rng, hid):
     inst = [rng.choice([b"Inst A", b"i2", b"Caps"]), b"_wd", b"_tcp", b"local"]
     ty = [b"_wd", b"_tcp", b"local"]
     host = [rng.choice([b"wdhost", b"WdHost"]), b"local"]
-    scenario = rng.choice(["browse", "browse", "resolve", "register", "mixed", "flush", "renew", "verify"])
+    scenario = rng.choice(["browse", "browse", "resolve", "register", "register", "mixed", "flush", "renew", "verify"])
+    ifaces = IFACES
+    if scenario == "register":
+        ifaces = rng.choice([IFACES, IFACES_V6, IFACES_V4, IFACES_V6])
     ttl_host = rng.choice([4, 10, 12, 120])
     ttl_other = rng.choice([5, 10, 20, 4500])
     full = [(ty, 12, 1, ttl_other, dnsgen.rd_ptr(inst)),
@@ -104,19 +109,20 @@ def gen_history(rng, hid):
             both(dgrams=[_dg(_resp([full[3]]))])      # cache-flush naming only one of the two addresses
         run(1000 * ttl_host + 3000)
     if scenario in ("register", "mixed"):
-        svc = {"ty": TY, "name": rng.choice(["Mine", "mine", "Other One"]), "host": "wdreg.local.", "ips": "192.168.1.10",
+        svc = {"ty": TY, "name": rng.choice(["Mine", "mine", "Other One"]), "host": "wdreg.local.",
+               "ips": "192.168.1.10" if ifaces is IFACES and rng.random() < 0.5 else "auto",
                "port": 80, "props": [["6b", "76"]]}
         both(calls=[{"op": "monitor", "ch": "m"}, {"op": "register", "svc": svc}])
         run(rng.choice([300, 2600]))
-        if rng.random() < 0.7:
+        if rng.random() < 0.8:
             both(calls=[{"op": "unregister", "name": "%s.%s" % (svc["name"], TY), "ch": "u"}])
         run(2500)
-    return json.dumps({"id": hid, "wd": 1, "t0": 1000000, "daemons": [{"seed": 5, "ifaces": IFACES}, {"seed": 5, "ifaces": IFACES}],
+    return json.dumps({"id": hid, "wd": 1, "t0": 1000000, "daemons": [{"seed": 5, "ifaces": ifaces}, {"seed": 5, "ifaces": ifaces}],
                        "steps": steps}, separators=(",", ":"))
 
 
 def generate(rng, tier):
-    n = 60 if tier == "quick" else 1500
+    n = 80 if tier == "quick" else 1500
     return [Case(gen_history(rng, "wd%d" % i), "wakediff") for i in range(n)]
 
 
